@@ -12,8 +12,10 @@ CONSTANTS Perms,     \* permission set of the cell under test
           Ids,       \* id kinds for list reads: "e1", "e2" readable, "wo" write-only, "missing"
           WIds,      \* id kinds for list writes: "w1", "w2" writable, "ro" read-only, "missing"
           MaxList, Weak
-VARIABLES val, subscribed, twin, last
-vars == <<val, subscribed, twin, last>>
+VARIABLES val, subscribed, twin, last,
+          blocked    \* a callback of the application panicked while a change was announced and the characteristic never
+                     \* announces a change again (only without the guard listener_panic_does_not_block_later_changes)
+vars == <<val, subscribed, twin, blocked, last>>
 Guard(g) == g \notin Weak
 R == "pr" \in Perms
 W == "pw" \in Perms
@@ -22,29 +24,45 @@ E == "ev" \in Perms
 \* twin: the controller is subscribed to the TWIN of the cell: the characteristic with the same instance id in another
 \* accessory (instance ids are unique per accessory only).  Intended design: a subscription is held per accessory and id
 \* (guard subscription_per_accessory_and_id); without it the twin's subscription counts for the cell too.
-Init == val = "v0" /\ subscribed = FALSE /\ twin = FALSE /\ last = [a |-> "none", tok |-> "none", ids |-> <<>>, r |-> "none", cb |-> "none", ev |-> 0]
+Init == val = "v0" /\ subscribed = FALSE /\ twin = FALSE /\ blocked = FALSE /\ last = [a |-> "none", tok |-> "none", ids |-> <<>>, r |-> "none", cb |-> "none", ev |-> 0]
 Out(a, tok, ids, r, cb, ev) == last' = [a |-> a, tok |-> tok, ids |-> ids, r |-> r, cb |-> cb, ev |-> ev]
 
 Listening      == subscribed \/ (twin /\ ~Guard("subscription_per_accessory_and_id"))
-LocalSet(t)    == /\ val' = t /\ Out("LocalSet", t, <<>>, "ok", "none", IF Listening /\ t # val THEN 1 ELSE 0) /\ UNCHANGED <<subscribed, twin>>
-SubTwin        == /\ twin' = TRUE /\ Out("SubTwin", "none", <<>>, "ok", "none", 0) /\ UNCHANGED <<val, subscribed>>
-UnsubTwin      == /\ twin' = FALSE /\ Out("UnsubTwin", "none", <<>>, "ok", "none", 0) /\ UNCHANGED <<val, subscribed>>
+LocalSet(t)    == /\ val' = t /\ Out("LocalSet", t, <<>>, "ok", "none", IF Listening /\ t # val THEN 1 ELSE 0) /\ UNCHANGED <<subscribed, twin, blocked>>
+SubTwin        == /\ twin' = TRUE /\ Out("SubTwin", "none", <<>>, "ok", "none", 0) /\ UNCHANGED <<val, subscribed, blocked>>
+UnsubTwin      == /\ twin' = FALSE /\ Out("UnsubTwin", "none", <<>>, "ok", "none", 0) /\ UNCHANGED <<val, subscribed, blocked>>
 RemoteWrite(t) == /\ IF W \/ ~Guard("write_needs_pw")
-                     THEN val' = t /\ Out("RemoteWrite", t, <<>>, "ok", IF t # val THEN t ELSE "none", 0)
+                     THEN val' = t /\ Out("RemoteWrite", t, <<>>, "ok", IF t # val /\ ~blocked THEN t ELSE "none", 0)
                      \* a write the controller may not make is answered with an error status (guard refused_write_reported);
                      \* without the guard it is dropped silently and the answer reads like a success
                      ELSE UNCHANGED val /\ Out("RemoteWrite", t, <<>>, IF Guard("refused_write_reported") THEN "status" ELSE "ignored", "none", 0)
-                  /\ UNCHANGED <<subscribed, twin>>
-RemoteRead     == /\ Out("RemoteRead", "none", <<>>, IF R THEN val ELSE "status", "none", 0) /\ UNCHANGED <<val, subscribed, twin>>
+                  /\ UNCHANGED <<subscribed, twin, blocked>>
+\* one PUT entry carrying a value AND ev = true: the write and the subscription are decided independently, each by its
+\* own permission (guard ev_checked_whatever_the_write_did: without it a refused write skips the check of the event
+\* permission and the subscription is recorded)
+RemoteWriteSub(t) ==
+  /\ IF W \/ ~Guard("write_needs_pw") THEN val' = t ELSE UNCHANGED val
+  /\ subscribed' = (E \/ ~Guard("subscribe_needs_ev") \/ (~W /\ ~Guard("ev_checked_whatever_the_write_did")))
+  /\ Out("RemoteWriteSub", t, <<>>, IF W /\ E THEN "ok" ELSE "status", IF (W \/ ~Guard("write_needs_pw")) /\ t # val THEN t ELSE "none", 0)
+  /\ UNCHANGED <<twin, blocked>>
+\* A remote write whose announcement makes a callback of the application panic (net/http recovers, the connection is
+\* dropped, the controller connects again).  The value is stored; later changes are announced as before (guard
+\* listener_panic_does_not_block_later_changes).
+PanickyWrite(t) ==
+  /\ W /\ t # val /\ ~blocked
+  /\ val' = t /\ subscribed' = FALSE /\ twin' = FALSE
+  /\ blocked' = ~Guard("listener_panic_does_not_block_later_changes")
+  /\ Out("PanickyWrite", t, <<>>, "dropped", t, 0)
+RemoteRead     == /\ Out("RemoteRead", "none", <<>>, IF R THEN val ELSE "status", "none", 0) /\ UNCHANGED <<val, subscribed, twin, blocked>>
 \* the application supplies the value through an installed getter (OnValueGet): the read returns it and it is the stored
 \* value from then on (characteristic.go:109-114); a cell without read permission is not asked
 GetterRead(t)  == /\ IF R THEN val' = t /\ Out("GetterRead", t, <<>>, t, "none", 0)
                           ELSE UNCHANGED val /\ Out("GetterRead", t, <<>>, "status", "none", 0)
-                  /\ UNCHANGED <<subscribed, twin>>
-AccRead        == /\ Out("AccRead", "none", <<>>, IF R THEN val ELSE "novalue", "none", 0) /\ UNCHANGED <<val, subscribed, twin>>
+                  /\ UNCHANGED <<subscribed, twin, blocked>>
+AccRead        == /\ Out("AccRead", "none", <<>>, IF R THEN val ELSE "novalue", "none", 0) /\ UNCHANGED <<val, subscribed, twin, blocked>>
 Sub            == /\ subscribed' = (E \/ ~Guard("subscribe_needs_ev"))
-                  /\ Out("Sub", "none", <<>>, IF subscribed' THEN "ok" ELSE "status", "none", 0) /\ UNCHANGED <<val, twin>>
-Unsub          == /\ subscribed' = FALSE /\ Out("Unsub", "none", <<>>, "ok", "none", 0) /\ UNCHANGED <<val, twin>>
+                  /\ Out("Sub", "none", <<>>, IF subscribed' THEN "ok" ELSE "status", "none", 0) /\ UNCHANGED <<val, twin, blocked>>
+Unsub          == /\ subscribed' = FALSE /\ Out("Unsub", "none", <<>>, "ok", "none", 0) /\ UNCHANGED <<val, twin, blocked>>
 
 \* response shape of a list read: one entry per id, in order; 200 iff all found and readable, else 207 with a status everywhere
 Found(k) == k # "missing"
@@ -53,7 +71,7 @@ Shape(ids) == [http |-> IF \A i \in 1..Len(ids) : EntryOK(ids[i]) THEN 200 ELSE 
                entries |-> [i \in 1..Len(ids) |-> [id |-> ids[i], value |-> EntryOK(ids[i]),
                                                    status |-> IF \A j \in 1..Len(ids) : EntryOK(ids[j]) THEN FALSE
                                                               ELSE (Guard("status_in_every_entry") \/ ~EntryOK(ids[i]))]]]
-ReadList(ids)  == /\ Out("ReadList", "none", ids, "shape", "none", 0) /\ UNCHANGED <<val, subscribed, twin>>
+ReadList(ids)  == /\ Out("ReadList", "none", ids, "shape", "none", 0) /\ UNCHANGED <<val, subscribed, twin, blocked>>
 
 \* response shape of a list write (PUT): 204 without a body iff every entry could be written, else 207 with one entry per
 \* requested id, in order, each with a status: 0 for the entries that were written, an error for the others
@@ -61,11 +79,11 @@ WGood(k) == k \in {"w1", "w2"}
 WShape(ids) == IF (\A i \in 1..Len(ids) : WGood(ids[i])) \/ ~Guard("refused_write_reported")
                THEN [http |-> 204, entries |-> <<>>]
                ELSE [http |-> 207, entries |-> [i \in 1..Len(ids) |-> [id |-> ids[i], status |-> TRUE, zero |-> WGood(ids[i])]]]
-WriteList(ids) == /\ Out("WriteList", "none", ids, "wshape", "none", 0) /\ UNCHANGED <<val, subscribed, twin>>
+WriteList(ids) == /\ Out("WriteList", "none", ids, "wshape", "none", 0) /\ UNCHANGED <<val, subscribed, twin, blocked>>
 WLists == {w \in UNION {[1..n -> WIds] : n \in 1..MaxList} :
              \A i, j \in 1..Len(w) : (i # j /\ WGood(w[i])) => w[i] # w[j]}      \* a cell is written once per request
 Lists == UNION {[1..n -> Ids] : n \in 1..MaxList}
-Next == \/ \E t \in Tok : LocalSet(t) \/ RemoteWrite(t) \/ GetterRead(t)
+Next == \/ \E t \in Tok : LocalSet(t) \/ RemoteWrite(t) \/ GetterRead(t) \/ RemoteWriteSub(t) \/ PanickyWrite(t)
         \/ RemoteRead \/ AccRead \/ Sub \/ Unsub \/ SubTwin \/ UnsubTwin
         \/ \E ids \in Lists : ReadList(ids)
         \/ \E ids \in WLists : WriteList(ids)
@@ -73,7 +91,7 @@ Spec == Init /\ [][Next]_vars
 
 \* ---- C09 / C11 on the design
 ReadsSeeLastWrite == last.a \in {"RemoteRead", "AccRead", "GetterRead"} /\ R => last.r = val
-NoWriteWithoutPw == [][ (last'.a = "RemoteWrite" /\ ~W) => (val' = val /\ last'.cb = "none") ]_vars
+NoWriteWithoutPw == [][ (last'.a \in {"RemoteWrite", "RemoteWriteSub"} /\ ~W) => (val' = val /\ last'.cb = "none") ]_vars
 NoValueWithoutPr == last.a \in {"RemoteRead", "AccRead", "GetterRead"} /\ ~R => last.r \in {"status", "novalue"}
 NoEventsWithoutEv == ~E => (~subscribed /\ (last.a = "LocalSet" => last.ev = 0))
 ShapeOK(ids) == LET s == Shape(ids) IN
@@ -89,8 +107,10 @@ WShapeOK(ids) == LET s == WShape(ids)
                   /\ (~allgood => /\ Len(s.entries) = Len(ids)
                                   /\ \A i \in 1..Len(ids) : /\ s.entries[i].id = ids[i] /\ s.entries[i].status
                                                              /\ (s.entries[i].zero <=> WGood(ids[i])))
+\* a change made by a controller reaches the remote-update callback (C09), whatever happened to earlier callbacks
+CallbackReached == [][ (last'.a = "RemoteWrite" /\ W /\ last'.tok # val) => last'.cb = last'.tok ]_vars
 ShapeRule == /\ last.a = "ReadList" => ShapeOK(last.ids)
              /\ last.a = "WriteList" => WShapeOK(last.ids)
              /\ (last.a = "RemoteWrite" /\ ~W) => last.r = "status"
-View == <<val, subscribed, twin>>
+View == <<val, subscribed, twin, blocked>>
 =======================================================================
